@@ -9,6 +9,8 @@ import z3
 from .values import (SInt, SBool, SBytes, SStr, SSeq, SObj, SExc, SMethod, SClosure, Sym,
                      Opaque, is_sym, is_intlike, is_byteslike, is_strlike)
 
+from .seqs import Fold, SymDict, ElemKind
+
 _MISSING = object()
 _member_descriptor = type(type("_S", (), {"__slots__": ("a",)}).a)
 
@@ -146,6 +148,8 @@ class InterpMixin(object):
                 return v
         if isinstance(obj, (list, dict)) and name in self.CONTAINER_METHODS:
             return SMethod(obj, None, name)
+        if isinstance(obj, (SymDict, SymDictKeys)):
+            return SMethod(obj, None, name)
         # raw python object / module / class
         if isinstance(obj, types.ModuleType) and (obj, name) in self.module_overlay:
             return self.module_overlay[(obj, name)]
@@ -175,7 +179,12 @@ class InterpMixin(object):
                 if default is not _MISSING:
                     return default
                 self.py_raise(AttributeError, "'%s' object has no attribute '%s'" % (obj.cls.__name__, name))
-        if obj.idict is not None and name in obj.idict:
+        if isinstance(obj.idict, SymDict):
+            # A-NAMES: unknown entries of an instance dict never shadow class attributes
+            if name in obj.idict.known or cattr is _MISSING:
+                if self.truth(obj.idict.contains(self, name)):
+                    return obj.idict.get(self, name, _MISSING)
+        elif obj.idict is not None and name in obj.idict:
             return obj.idict[name]
         if cattr is not _MISSING:
             if isinstance(cattr, types.FunctionType):
@@ -204,7 +213,10 @@ class InterpMixin(object):
                 return
             if obj.idict is None:
                 self.py_raise(AttributeError, "'%s' object has no attribute '%s'" % (obj.cls.__name__, name))
-            obj.idict[name] = value
+            if isinstance(obj.idict, SymDict):
+                obj.idict.set(self, name, value)
+            else:
+                obj.idict[name] = value
             return
         if isinstance(obj, SExc):
             obj.extra[name] = value
@@ -230,6 +242,8 @@ class InterpMixin(object):
             return self.call_function(fn.func, [fn.recv] + list(args), kwargs)
         if isinstance(fn, SClosure):
             return self.invoke_closure(fn, args, kwargs)
+        if isinstance(fn, Fold):
+            return fn.apply(self, args[0])
         if isinstance(fn, types.MethodType):
             return self.call_function(fn.__func__, [fn.__self__] + list(args), kwargs)
         if isinstance(fn, (staticmethod, classmethod)):
@@ -686,6 +700,12 @@ class InterpMixin(object):
         it = self.eval(s.iter, fr)
         if spec is not None:
             return self.exec_loop_with_invariant(s, fr, spec, kind="for", iterable=it)
+        if isinstance(it, SymDict):
+            it = SymDictKeys(it)
+        if isinstance(it, SymDictKeys):
+            if it.d.rest or it.d.sym:
+                self.unsupported("for over an instance dict with unknown entries in %s needs an invariant" % fr.name)
+            it = list(it.d.known.keys())
         if isinstance(it, SSeq):
             self.unsupported("for over a symbolic sequence in %s needs an invariant" % fr.name)
         items = self.iter_concrete(it)
@@ -910,8 +930,8 @@ class InterpMixin(object):
                 d.update(sub)
             else:
                 kk = self.eval(k, fr)
-                if is_sym(kk):
-                    self.unsupported("dict literal with symbolic key")
+                # a symbolic key is stored as its wrapper object (identity-hashed); lookups go
+                # through ModelsMixin.dict_get, which compares keys with the interpreter's ==
                 d[kk] = self.eval(v, fr)
         return d
 
@@ -996,6 +1016,13 @@ class InterpMixin(object):
         v = self.eval(e.value, fr)
         self.assign(e.target, v, fr)
         return v
+
+
+class SymDictKeys(object):
+    """keys() / iteration view of a SymDict"""
+
+    def __init__(self, d):
+        self.d = d
 
 
 class SymSlice(object):
